@@ -284,6 +284,20 @@ def direct_distance_check(ctx, fam, size, code):
             ctx.violation(fam + '-distance-upper', 'no non-trivial logical of weight d exists (true distance > d)', rep)
 
 
+def guard(ctx, fam, size, fn):
+    """Run one per-size block; an exception escaping from documented API calls is itself a failing input."""
+    import traceback
+    try:
+        fn()
+        return True
+    except Exception as e:  # noqa
+        tb = traceback.extract_tb(e.__traceback__)
+        where = ['%s:%d %s' % (f.filename.split('/')[-1], f.lineno, f.name) for f in tb[-3:]]
+        ctx.violation(fam + '-exception', 'documented API call raises ' + exc_class(e),
+                      {'family': fam, 'size': size, 'error': str(e)[:200], 'where': where})
+        return False
+
+
 def ctor_args(ctx):
     """argument stream for the constructors: (python value, model token)"""
     vals = [(v, 'i%d' % v) for v in (-2, -1, 0, 1, 2, 3, 4, 5, 6, 7, 10 ** 30, 10 ** 30 + 1, 2 ** 64, -10 ** 30)]
@@ -360,7 +374,7 @@ def check_c07(ctx):
         req += ['rp_code %d %d' % (r, c), 'rp_nkd %d %d' % (r, c), 'rp_pidx %d %d' % (r, c)]
     out = ctx.model(ENGINE, req)
     kern = []
-    for i, (r, c) in enumerate(sizes):
+    def whole(i, r, c):
         code = RotatedPlanarCode(r, c)
         inp = 'RotatedPlanarCode(%d,%d)' % (r, c)
         m = out[3 * i].split(' ')
@@ -392,9 +406,13 @@ def check_c07(ctx):
                   {'code': inp, 'n_k_d': list(code.n_k_d)} if (r, c) == (3, 4) else None)
         if (r, c) in ((3, 3), (3, 4), (4, 3), (5, 4), (4, 6)):
             kern.append(kernel_code_items('(rotplanar_code %d %d)' % (r, c), code))
+
+    for i, (r, c) in enumerate(sizes):
+        guard(ctx, FAM, [r, c], lambda: whole(i, r, c))
     # ---- 2. lattice Pauli API on small sizes ---------------------------------------------------
     req, exp = [], []
-    for (r, c) in _sizes(3, small):
+
+    def api(r, c):
         code = RotatedPlanarCode(r, c)
         mx, my = code.site_bounds
         inp = 'RotatedPlanarCode(%d,%d)' % (r, c)
@@ -493,6 +511,11 @@ def check_c07(ctx):
             if got != {tuple(pis[j]) for j in range(len(pis)) if s[j]}:
                 ctx.violation(FAM + '-syndrome-index', 'syndrome bits do not map back to their plaquettes',
                               {'family': FAM, 'size': [r, c], 'syndrome': bitstr(s)})
+
+    for (r, c) in _sizes(3, small):
+        if not guard(ctx, FAM, [r, c], lambda: api(r, c)):
+            m = min(len(req), len(exp))
+            del req[m:], exp[m:]
     out = ctx.model(ENGINE, req)
     for (fn, inp, impl), m, line in zip(exp, out, req):
         if fn.endswith('syndrome_to_plaquette_indices') and m not in ('-',) and not m.startswith('ERR'):
@@ -518,20 +541,24 @@ def check_c07(ctx):
 
 def check_c08(ctx):
     from qecsim.models.rotatedplanar import RotatedPlanarCode
-    hi = ctx.pick(5, 6)
-    for (r, c) in _sizes(3, hi):
+    hi = ctx.pick(5, 8)
+    searched = [(r, c) for (r, c) in _sizes(3, hi) if min(r, c) <= 7]     # thorough: up to 8x7 / 7x8 (8x8 excluded)
+    for (r, c) in searched:
         code = RotatedPlanarCode(r, c)
-        direct_distance_check(ctx, FAM, (r, c), code)
+        guard(ctx, FAM, [r, c], lambda: direct_distance_check(ctx, FAM, (r, c), code))
         ctx.count((FAM, 'dist', r, c), r != c or min(r, c) >= 3, 'rotplanar-distance',
                   {'code': repr(code), 'n_k_d': list(code.n_k_d)} if (r, c) == (3, 5) else None)
     # beyond the search budget: supplied logicals not lighter than d, and one of weight exactly d (upper bound)
     for (r, c) in _sizes(3, ctx.pick(11, 17)):
-        if r <= hi and c <= hi:
+        if (r, c) in searched:
             continue
-        code = RotatedPlanarCode(r, c)
-        n, k, d = code.n_k_d
-        w = [int(np.count_nonzero(v[:n] + v[n:])) for v in np.vstack([code.logical_xs, code.logical_zs])]
-        if min(w) != d:
-            ctx.violation(FAM + '-logical-weights', 'lightest supplied logical has weight %d, advertised d=%d' % (min(w), d),
-                          {'family': FAM, 'size': [r, c]})
+        def lw():
+            code = RotatedPlanarCode(r, c)
+            n, k, d = code.n_k_d
+            w = [int(np.count_nonzero(v[:n] + v[n:])) for v in np.vstack([code.logical_xs, code.logical_zs])]
+            if min(w) != d:
+                ctx.violation(FAM + '-logical-weights', 'lightest supplied logical has weight %d, advertised d=%d' % (min(w), d),
+                              {'family': FAM, 'size': [r, c]})
+
+        guard(ctx, FAM, [r, c], lw)
         ctx.count((FAM, 'lw', r, c), r != c, 'rotplanar-logical-weight')
